@@ -401,9 +401,21 @@ func c02Worker(c *core.Collector, x *Ctx) {
 			// body longer than declared by exactly 1024 / 2048 / 1023 / 1025 bytes (the length field has 10 bits: comparisons done
 			// modulo 2^10, or on a masked value, accept some of these)
 			if k%8 == 0 {
-				for _, extra := range []int{1023, 1024, 1025, 2048, 3072} {
+				extras := []int{1023, 1024, 1025, 2048, 3072}
+				if k%64 == 0 {
+					// ... and by 2^16 / 2^17 (+-1): lengths computed in 16 bits wrap there (frames of 64 KiB and more cannot come
+					// out of the stream parser, but Decode is a public function of its own)
+					extras = append(extras, 65535, 65536, 65537, 131072, 65536+1024)
+				}
+				for _, extra := range extras {
 					q := append([]byte{}, p[:len(p)-1]...)
-					q = append(q, r.Bytes(extra)...)
+					fill := r.Bytes(extra)
+					for j := range fill {
+						if fill[j] == 0x7e {
+							fill[j] = 0x7f // (an interior delimiter would make it two frames)
+						}
+					}
+					q = append(q, fill...)
 					q = append(q, 0)
 					check(ref.Escape(c02Fix(q)), "bodylong-by-a-multiple-of-1024", true)
 				}
